@@ -269,7 +269,12 @@ func genContract(r *hlib.Rand) string {
 }
 
 func genNum(r *hlib.Rand, base int) string {
-	if r.Chance(1, 5) {
+	if r.Chance(1, 6) {
+		// a valid number in a spelling the two parsers of the proposal might treat differently
+		v := []string{"1", "10", "100", "1000", "10000"}[base%5]
+		return hx(pick(r, " "+v, v+" ", "\t"+v, v+"\n", "+"+v, "0"+v, "\u00a0"+v, " +"+v+" "))
+	}
+	if r.Chance(1, 6) {
 		return hx(pick(r, "", "0", "-1", "+5", "1_000", "0x10", " 7", "7 ", "1e3", "12345678901234567890123456789012345678901234567890123456789012345678901234567890", "\u0663"))
 	}
 	return hx([]string{"1", "10", "100", "1000", "115792089237316195423570985008687907853269984665640564039457584007913129639936"}[(base+r.Intn(2))%5])
